@@ -97,3 +97,19 @@ struct Spelled {
     8: optional double neg_exp = 1.5e-3,
     9: double neg_dbl = -2.5,
 }
+
+typedef i16 Small
+
+// every integer width takes an enum member by name; ordered containers take the same literals as the hashed ones
+struct Widths {
+    1: i8 e8 = Level.HIGH,
+    2: i16 e16 = Level.MID,
+    3: i32 e32 = Level.LOW,
+    4: i64 e64 = Level.HIGH,
+    5: Small e_small = Level.MID,
+    6: optional i16 e16_opt = Level.HIGH,
+    7: map<string, i32> ordered_map = {"a": 1, "b": 2} (pilota.rust_type = "btree"),
+    8: set<i32> ordered_set = [3, 1, 2] (pilota.rust_type = "btree"),
+    9: optional map<i32, string> ordered_opt = {1: "one"} (pilota.rust_type = "btree"),
+    10: map<i32, list<i32>> ordered_nested = {1: [1, 2]} (pilota.rust_type = "btree"),
+}
